@@ -214,7 +214,10 @@ class World:
         self.norm = norm_c12.Normaliser(self.findex, keep=KEEP, else_of_return=(r"Geometry::PartiIterative<.*>::build_elems_at_rank$",))
         for fn in self.fns:
             if re.search(r"kernel/geometry/(patch_|parti_|mesh_node|intern/patch_index)", fn.file):
-                self.norm.apply(fn)
+                try:
+                    self.norm.apply(fn)
+                except Exception as ex:          # a construct the normaliser trips over is "not modelled", never a crash of the check
+                    ck.incomplete("E2.patch-kinds", "normalisation of %s failed (%s: %s)" % (fn.full[:120], type(ex).__name__, str(ex)[:120]))
 
     def fk(self, fn):
         k = (fn.full, fn.file, fn.line)
